@@ -720,6 +720,124 @@ class Run:
                     if not inst(nxt["id"]) or inst(nxt["id"])[-1]["state"] != "Completed":
                         self.viol("successor-did-not-run", "successor %s of the catching task did not complete" % nxt["id"])
 
+    # ================================================================== C04 conformance with a reference interpretation
+    def cond_value(self, expr, zmodel):
+        if isinstance(zmodel, dict):
+            return bool(eval(expr.replace("&&", " and ").replace("||", " or "), {"__builtins__": {}}, dict(zmodel)))
+        env = {k: v for k, v in self.sym.items()}
+        term = eval(expr.replace("&&", " and ").replace("||", " or "), {"__builtins__": {}}, env)  # comparisons over the symbolic inputs
+        if isinstance(term, bool):
+            return term
+        return z3.is_true(zmodel.eval(term, model_completion=True))
+
+    def reference(self, zmodel):
+        """Nodes that run and their final states under the reference interpretation of the model."""
+        val = lambda e: self.cond_value(e, zmodel)
+        out = {}
+        order = []  # (pred nid, succ nid): pred terminal before succ created
+
+        def run_steps(steps):
+            prev = None
+            for st in steps:
+                if prev is not None:
+                    order.append((prev, st["id"]))
+                run_step(st)
+                prev = st["id"]
+
+        def run_step(st):
+            if st.get("if") and not val(st["if"]):
+                out[st["id"]] = "Skipped"
+                return
+            bs = st.get("branches") or []
+            if bs:
+                conds = {b["id"]: val(b["if"]) for b in bs if b.get("if") and not b.get("needs")}
+                any_true = any(conds.values())
+                for b in bs:
+                    if b.get("needs"):
+                        runs = True
+                        for nd in b["needs"]:
+                            order.append((nd, b["id"] + "#run"))
+                    elif b.get("if"):
+                        runs = conds[b["id"]]
+                    elif b.get("else"):
+                        runs = not any_true
+                    else:
+                        runs = False
+                    if runs:
+                        run_steps(b.get("steps") or [])
+                        out[b["id"]] = "Completed"
+                    else:
+                        out[b["id"]] = "Skipped"
+            prev = None
+            for a in st.get("acts") or []:
+                if prev is not None:
+                    order.append((prev, a["id"]))
+                out[a["id"]] = "Skipped" if (a.get("if") and not val(a["if"])) else "Completed"
+                prev = a["id"]
+            out[st["id"]] = "Completed"
+
+        run_steps(self.model.get("steps") or [])
+        out[self.model["id"]] = "Completed"
+        return out, order
+
+    def e_c04(self, concrete=None):
+        W = self.W
+        if concrete is not None:
+            zm = concrete
+        else:
+            zm = self.I.model()
+        if zm is None:
+            return
+        self.res.witnesses += 1
+        ts = self.tasks()
+        if not self.terminal_events():
+            leaves = sorted(set("%s(%s)=%s" % (t["kind"], self.attr_desc(t), t["state"]) for t in ts if t["state"] in ("Pending",)))
+            self.viol("unfinished:" + ",".join(leaves), "the process did not finish after every interrupt was completed (see C01)")
+            return
+        exp, order = self.reference(zm)
+        got = {}
+        for t in ts:
+            got.setdefault(t["nid"], []).append(t)
+        vals = dict(zm) if isinstance(zm, dict) else {k: str(zm.eval(v, model_completion=True)) for k, v in self.sym.items()}
+        for nid, st in exp.items():
+            inst = got.get(nid, [])
+            kind = (self.node_attr(nid) or ("?", None))[0]
+            if len(inst) != 1:
+                # a node skipped by its own `if` may or may not have a task; a skipped node must not run twice
+                self.viol("node-instances:%s:%s=%d" % (kind, st, len(inst)), "%s %s should end %s exactly once but has %d task(s) (inputs %s)" % (kind, nid, st, len(inst), vals))
+            elif inst[0]["state"] != st:
+                self.viol("node-state:%s(%s):%s!=%s" % (kind, self.attr_desc(inst[0]), inst[0]["state"], st),
+                          "%s %s ended %s, the reference says %s (inputs %s)" % (kind, nid, inst[0]["state"], st, vals))
+        for nid, inst in got.items():
+            if nid not in exp:
+                kind = (self.node_attr(nid) or ("dyn", None))[0]
+                self.viol("node-ran-unexpectedly:%s=%s" % (kind, inst[0]["state"]), "%s %s has a task (%s) but should not have run (inputs %s)" % (kind, nid, inst[0]["state"], vals))
+        # ordering: predecessor terminal before successor created / resumed
+        first_created = {}
+        first_terminal = {}
+        first_running = {}
+        tid2nid = {t["tid"]: t["nid"] for t in ts}
+        for i, e in enumerate(W.trace):
+            nid = tid2nid.get(e["tid"])
+            if nid is None:
+                continue
+            new = STATE_NAMES[e["new"]]
+            if new != "None" and nid not in first_created:
+                first_created[nid] = i
+            if new in TERMINAL and nid not in first_terminal:
+                first_terminal[nid] = i
+            if new == "Running" and nid not in first_running:
+                first_running[nid] = i
+        for pred, succ in order:
+            if succ.endswith("#run"):
+                s_id = succ[:-4]
+                if s_id in first_running and (pred not in first_terminal or first_terminal[pred] > first_running[s_id]):
+                    self.viol("order:needs-before-needed-finished", "needs-branch %s started before %s finished" % (s_id, pred))
+                continue
+            if succ in first_created and pred in first_created:
+                if pred not in first_terminal or first_terminal[pred] > first_created[succ]:
+                    self.viol("order:successor-before-predecessor-terminal:%s" % (self.node_attr(succ) or ("?",))[0], "%s was created before %s was terminal" % (succ, pred))
+
     # ================================================================== C05 admission
     def a_c05(self, t, kind, accepted, before, nmsg, ntrace):
         W = self.W
@@ -917,6 +1035,12 @@ class ReplayRun(Run):
 
     def q_c02(self, where):
         pass
+
+    def r_c04(self, v, obs):
+        conc = {k: (int(x) if x not in ("True", "False") else x == "True") for k, x in (v.model or {}).items() if not k.startswith("act")}
+        idx = {n: i for i, n in enumerate(STATE_NAMES)}
+        self.W.trace = [dict(tid=e["tid"], new=idx.get(e["new"], 0), old=idx.get(e["old"], 0)) for e in obs["trace"]]
+        self.e_c04(conc)
 
     def r_c06(self, v, obs):
         errs = [e for e in self.log if e.get("action") == "Error"]
